@@ -323,6 +323,10 @@ func (e *Enc) callSiteHooks(in *ssa.Call, site, short string, args []ssa.Value, 
 		arrSorts["G|reached|"+key] = "Bool"
 		st.m["G|reached|"+key] = "true"
 	}
+	if _, ok := e.iterSites[key]; ok {
+		arrSorts["G|iter|"+key] = "Bool"
+		st.m["G|iter|"+key] = "true"
+	}
 	asserted := false
 	if e.con == nil {
 		return false
@@ -506,6 +510,35 @@ func (e *Enc) staticCallV(in *ssa.Call, callee *ssa.Function, args []ssa.Value, 
 		}
 		e.set(in, res)
 		e.siteResults[fmt.Sprintf("%s#%d", cn, e.lastOrd[cn])] = res
+		// assumed facts about a pure dependency function (extern ... ensures): stated over its parameters and single result
+		if con != nil && len(con.Ensures) > 0 && callee.Signature.Results().Len() == 1 {
+			vars := map[string]*Val{"result": res, "result0": res}
+			for i, p := range callee.Params {
+				if i < len(argv) {
+					vars[p.Name()] = argv[i]
+				}
+			}
+			if n := callee.Signature.Results().At(0).Name(); n != "" {
+				vars[n] = res
+			}
+			// dependency functions are loaded without bodies: parameter names come from the signature
+			if len(callee.Params) == 0 {
+				ps := callee.Signature.Params()
+				for i := 0; i < ps.Len() && i < len(argv); i++ {
+					if n := ps.At(i).Name(); n != "" {
+						vars[n] = argv[i]
+					}
+				}
+			}
+			env := &Env{e: e, st: st, old: st, vars: vars, foreign: true, noLocals: true}
+			for _, en := range con.Ensures {
+				if e.active(en) {
+					if f, ok := e.tryFormula(env, en.E); ok {
+						e.assumeHere(f)
+					}
+				}
+			}
+		}
 		return
 	}
 	if pk := pkgPathOf(callee); !strings.HasPrefix(pk, modRoot) {
@@ -624,7 +657,7 @@ func (e *Enc) staticCallV(in *ssa.Call, callee *ssa.Function, args []ssa.Value, 
 				}
 			}
 		}
-		env := &Env{e: e, st: st, old: &pre, vars: vars}
+		env := &Env{e: e, st: st, old: &pre, vars: vars, foreign: true}
 		for _, en := range con.Ensures {
 			if e.active(en) {
 				// a clause that speaks about the callee's internals (resultof / reached of its own call sites) cannot be
@@ -1034,7 +1067,7 @@ func (e *Enc) localClosureCall(in *ssa.Call, lf *ssa.Function, c *ssa.CallCommon
 				}
 			}
 		}
-		env := &Env{e: e, st: st, old: &pre, vars: vars, noLocals: true}
+		env := &Env{e: e, st: st, old: &pre, vars: vars, noLocals: true, foreign: true}
 		for _, en := range con.Ensures {
 			if e.active(en) {
 				// a clause that speaks about the callee's internals (resultof / reached of its own call sites) cannot be
